@@ -33,6 +33,8 @@ type access struct {
 	inLiteral        bool
 	method           string // for how == "call" through a field's value: the method invoked ("" for a function-valued field)
 	async            bool   // the access sits inside a `go func() { ... }()` literal: it runs on a goroutine of its own
+	sects            map[string]int  // lock -> id of the critical section (the Lock/RLock statement of this function) the access sits in
+	rheld            map[string]bool // locks held in read mode (RLock)
 }
 
 type structInfo struct {
@@ -136,7 +138,7 @@ func lockTable(fset *token.FileSet, files []*ast.File) string {
 					env[n.Name] = tn
 				}
 			}
-			w := &walker{fset: fset, structs: structs, tracked: tracked, env: env, fn: fname, accs: &accs}
+			w := &walker{fset: fset, structs: structs, tracked: tracked, env: env, fn: fname, accs: &accs, sect: map[string]int{}, rl: map[string]bool{}}
 			w.body(fd.Body.List, nil)
 		}
 	}
@@ -338,6 +340,25 @@ func lockTable(fset *token.FileSet, files []*ast.File) string {
 		b.WriteString(row)
 	}
 	b.WriteString("\n]\n\n")
+	// critical sections: (function, lock, section id within the function, read-mode, struct, field, write) for every access made
+	// inside a critical section the function itself opened (one section id per Lock/RLock statement of the function)
+	b.WriteString("def lockSections : List (String × String × Nat × Bool × String × String × Bool) := [\n")
+	lsSet := map[string]bool{}
+	for _, a := range accs {
+		if a.how == "lockop" {
+			continue
+		}
+		for l, id := range a.sects {
+			lsSet[fmt.Sprintf("  (%q, %q, %d, %v, %q, %q, %v)", a.fn, l, id, a.rheld[l], a.strct, a.field, a.write)] = true
+		}
+	}
+	var lss []string
+	for e := range lsSet {
+		lss = append(lss, e)
+	}
+	sort.Strings(lss)
+	b.WriteString(strings.Join(lss, ",\n"))
+	b.WriteString("\n]\n\n")
 	// lock-order edges: lock B acquired while A is held
 	b.WriteString("def lockOrderEdges : List (String × String) := [\n")
 	edgeSet := map[string]bool{}
@@ -404,6 +425,9 @@ type walker struct {
 	accs    *[]access
 	defers  []deferEntry // defer stack of the function body being walked
 	async   bool         // walking the body of a `go func() {...}()` literal
+	sect    map[string]int  // lock -> id of the critical section currently open in this function (one id per Lock/RLock statement)
+	rl      map[string]bool // lock -> currently held in read mode
+	nsect   int
 }
 
 // methodsByName: method name -> receiver types declaring it (name-based resolution of calls through interfaces)
@@ -575,6 +599,9 @@ func (w *walker) stmt(s ast.Stmt, held []string) []string {
 				for _, h := range held {
 					lockEdges = append(lockEdges, [2]string{h, l})
 				}
+				w.nsect++
+				w.sect[l] = w.nsect
+				w.rl[l] = op == "RLock"
 				return append(append([]string{}, held...), l)
 			default:
 				return without(held, l)
@@ -896,8 +923,17 @@ func (w *walker) recordM(sel ast.Expr, write bool, held []string, how, method st
 	if _, isField := w.structs[st].fields[s.Sel.Name]; !isField {
 		return // a method
 	}
+	sects, rheld := map[string]int{}, map[string]bool{}
+	for _, h := range held {
+		if id, ok := w.sect[h]; ok {
+			sects[h] = id
+			if w.rl[h] {
+				rheld[h] = true
+			}
+		}
+	}
 	*w.accs = append(*w.accs, access{strct: st, field: s.Sel.Name, fn: w.fn, line: w.fset.Position(s.Pos()).Line,
-		write: write, how: how, held: append([]string{}, held...), method: method, async: w.async})
+		write: write, how: how, held: append([]string{}, held...), method: method, async: w.async, sects: sects, rheld: rheld})
 }
 
 func isPackageName(n string) bool {
